@@ -291,8 +291,6 @@ package postgres
 //@ elem \.Commands$ assume elem != nil && elem.Kind >= 0 && elem.Kind <= 26 && (elem.Kind == t_aio.ReadPromise ==> elem.ReadPromise != nil) && (elem.Kind == t_aio.ReadPromises ==> elem.ReadPromises != nil) && (elem.Kind == t_aio.SearchPromises ==> elem.SearchPromises != nil) && (elem.Kind == t_aio.CreatePromise ==> elem.CreatePromise != nil) && (elem.Kind == t_aio.UpdatePromise ==> elem.UpdatePromise != nil) && (elem.Kind == t_aio.CreateCallback ==> elem.CreateCallback != nil) && (elem.Kind == t_aio.DeleteCallbacks ==> elem.DeleteCallbacks != nil) && (elem.Kind == t_aio.ReadSchedule ==> elem.ReadSchedule != nil) && (elem.Kind == t_aio.ReadSchedules ==> elem.ReadSchedules != nil) && (elem.Kind == t_aio.SearchSchedules ==> elem.SearchSchedules != nil) && (elem.Kind == t_aio.CreateSchedule ==> elem.CreateSchedule != nil) && (elem.Kind == t_aio.UpdateSchedule ==> elem.UpdateSchedule != nil) && (elem.Kind == t_aio.DeleteSchedule ==> elem.DeleteSchedule != nil) && (elem.Kind == t_aio.ReadTask ==> elem.ReadTask != nil) && (elem.Kind == t_aio.ReadTasks ==> elem.ReadTasks != nil) && (elem.Kind == t_aio.CreateTask ==> elem.CreateTask != nil) && (elem.Kind == t_aio.CreateTasks ==> elem.CreateTasks != nil) && (elem.Kind == t_aio.CompleteTasks ==> elem.CompleteTasks != nil) && (elem.Kind == t_aio.UpdateTask ==> elem.UpdateTask != nil) && (elem.Kind == t_aio.HeartbeatTasks ==> elem.HeartbeatTasks != nil) && (elem.Kind == t_aio.CreatePromiseAndTask ==> elem.CreatePromiseAndTask != nil) && (elem.Kind == t_aio.ReadLock ==> elem.ReadLock != nil) && (elem.Kind == t_aio.AcquireLock ==> elem.AcquireLock != nil) && (elem.Kind == t_aio.ReleaseLock ==> elem.ReleaseLock != nil) && (elem.Kind == t_aio.HeartbeatLocks ==> elem.HeartbeatLocks != nil) && (elem.Kind == t_aio.TimeoutLocks ==> elem.TimeoutLocks != nil) && (elem.Kind == t_aio.ReadEnqueueableTasks ==> elem.ReadEnquableTasks != nil)
 //@ maxpaths 40000
 //@ requires tx != nil
-//@ loop 1 invariant sqlis(promiseInsertStmt, "PROMISE_INSERT_STATEMENT") && sqlis(promiseUpdateStmt, "PROMISE_UPDATE_STATEMENT") && sqlis(callbackInsertStmt, "CALLBACK_INSERT_STATEMENT") && sqlis(callbackDeleteStmt, "CALLBACK_DELETE_STATEMENT") && sqlis(scheduleInsertStmt, "SCHEDULE_INSERT_STATEMENT") && sqlis(scheduleUpdateStmt, "SCHEDULE_UPDATE_STATEMENT") && sqlis(scheduleDeleteStmt, "SCHEDULE_DELETE_STATEMENT") && sqlis(lockAcquireStmt, "LOCK_ACQUIRE_STATEMENT") && sqlis(lockReleaseStmt, "LOCK_RELEASE_STATEMENT") && sqlis(lockHeartbeatStmt, "LOCK_HEARTBEAT_STATEMENT") && sqlis(lockTimeoutStmt, "LOCK_TIMEOUT_STATEMENT") && sqlis(taskInsertStmt, "TASK_INSERT_STATEMENT") && sqlis(tasksInsertStmt, "TASK_INSERT_ALL_STATEMENT") && sqlis(tasksCompleteStmt, "TASK_COMPLETE_BY_ROOT_ID_STATEMENT") && sqlis(taskUpdateStmt, "TASK_UPDATE_STATEMENT") && sqlis(taskHeartbeatStmt, "TASK_HEARTBEAT_STATEMENT")
-//@ loop 2 invariant sqlis(promiseInsertStmt, "PROMISE_INSERT_STATEMENT") && sqlis(promiseUpdateStmt, "PROMISE_UPDATE_STATEMENT") && sqlis(callbackInsertStmt, "CALLBACK_INSERT_STATEMENT") && sqlis(callbackDeleteStmt, "CALLBACK_DELETE_STATEMENT") && sqlis(scheduleInsertStmt, "SCHEDULE_INSERT_STATEMENT") && sqlis(scheduleUpdateStmt, "SCHEDULE_UPDATE_STATEMENT") && sqlis(scheduleDeleteStmt, "SCHEDULE_DELETE_STATEMENT") && sqlis(lockAcquireStmt, "LOCK_ACQUIRE_STATEMENT") && sqlis(lockReleaseStmt, "LOCK_RELEASE_STATEMENT") && sqlis(lockHeartbeatStmt, "LOCK_HEARTBEAT_STATEMENT") && sqlis(lockTimeoutStmt, "LOCK_TIMEOUT_STATEMENT") && sqlis(taskInsertStmt, "TASK_INSERT_STATEMENT") && sqlis(tasksInsertStmt, "TASK_INSERT_ALL_STATEMENT") && sqlis(tasksCompleteStmt, "TASK_COMPLETE_BY_ROOT_ID_STATEMENT") && sqlis(taskUpdateStmt, "TASK_UPDATE_STATEMENT") && sqlis(taskHeartbeatStmt, "TASK_HEARTBEAT_STATEMENT")
 // every command either yields its result or fails the whole batch at once: a result slot is never left
 // empty while execution goes on (an error that is swallowed would commit a partial batch)
 //@ site loop 2 backedge assert results[i][j] != nil
